@@ -14,6 +14,13 @@ for T in ("s64", "u64"):
     for name in ("add", "sub", "mul", "and", "or", "xor"):
         U("it.%s.%s" % (T, name), "h_%s_%s" % (T, name), "int/%s %s: exact two's-complement result for all 2^128 operand pairs; no UB" % (T, name), unwind=3, functions=["cfun_it_%s_%s" % (T, name)], **({"cbmc": ["--z3"]} if name == "mul" else {}))
         U("it.%s.%s.fold3" % (T, name), "h_%s_%s_fold3" % (T, name), "int/%s %s: variadic call is the left fold" % (T, name), unwind=4, functions=["cfun_it_%s_%s" % (T, name)], **({"cbmc": ["--z3"]} if name == "mul" else {}))
+    for name in ("lshift", "rshift"):
+        kw = {}
+        if T == "s64" and name == "lshift":
+            kw = {"skip": ["arithmetic overflow on signed shl", "shift operand is negative"], "undecided_clauses": ["`(int64_t) a << k` is formally undefined in C for negative a or when bits are shifted out (every supported compiler yields the low 64 bits, which is what the postcondition states); the generated overflow-on-shl obligations are excluded"]}
+        U("it.%s.%s" % (T, name), "h_%s_%s" % (T, name), "int/%s %s, distance 0..63, all 2^64 operands: %s" % (T, name, "low 64 bits of a * 2^k" if name == "lshift" else ("arithmetic shift (sign kept, floor(a / 2^k)) - as brshift on ordinary numbers" if T == "s64" else "logical shift")),
+          unwind=3, functions=["cfun_it_%s_%s" % (T, name)], checks=base["checks"] + ["undefined-shift-check"],
+          mutants=[{"name": "cast-covers-whole-expression", "file": "inttypes.c", "find": "        *box = (T) ((uint64_t) (*box)) oper ((uint64_t) janet_unwrap_##type(argv[i])); \\", "replace": "        *box = (T) (((uint64_t) (*box)) oper ((uint64_t) janet_unwrap_##type(argv[i]))); \\", "expect": "arithmetic shift|sign"}] if (T == "s64" and name == "rshift") else [], **kw)
     U("it.%s.subi" % T, "h_%s_subi" % T, "int/%s r-: other - self" % T, functions=["cfun_it_%s_subi" % T])
     U("it.%s.not" % T, "h_%s_not" % T, "int/%s ~" % T, functions=["cfun_it_%s_not" % T])
 skip_mul = {"s64.divf": True, "s64.divfi": True}
